@@ -177,7 +177,7 @@ def parse_spec(path):
                 cur_fn.r6_optional.add(n)
             section = sec
         elif s.startswith("%proof") and cur_fn is not None:
-            m = re.match(r'%proof\??\s+(before|afterblock|afterstmt|after|start|inloop|endloop|end)(?:\s+"(.*)")?(?:\s+#(-?\d+))?\s*$', s)
+            m = re.match(r'%proof\??\s+(before|afterblock|afterstmt|afterloop|after|start|inloop|endloop|end)(?:\s+"(.*)")?(?:\s+#(-?\d+))?\s*$', s)
             if not m:
                 raise Undecided("bad %%proof at %s:%d" % (path, lineno))
             sec = []
@@ -193,7 +193,7 @@ def parse_spec(path):
             cur_fn.proofs.append((m.group(1), m.group(2), int(m.group(3) or 0), sec, None))
             section = sec
         elif s.startswith("%ghost") and cur_fn is not None:
-            m = re.match(r'%ghost\??\s+(before|afterblock|afterstmt|after|start|inloop|endloop|end)(?:\s+"(.*)")?(?:\s+#(-?\d+))?\s*$', s)
+            m = re.match(r'%ghost\??\s+(before|afterblock|afterstmt|afterloop|after|start|inloop|endloop|end)(?:\s+"(.*)")?(?:\s+#(-?\d+))?\s*$', s)
             if not m:
                 raise Undecided("bad %%ghost at %s:%d" % (path, lineno))
             sec = []
@@ -674,7 +674,7 @@ def fn_inserts(u, m, d, it, info, used_fns, probe_fn):
     for where, anchor, occ, sec, mac in fs.proofs:
         if id(sec) in fs.optional:
             try:
-                if where in ("inloop", "endloop"):
+                if where in ("inloop", "endloop", "afterloop"):
                     if len([l for l in loops if norm(anchor) in l["header"]]) <= occ:
                         raise Undecided("gone")
                 elif where not in ("start", "end"):
@@ -702,7 +702,7 @@ def fn_inserts(u, m, d, it, info, used_fns, probe_fn):
             if not (tail.endswith(";") or tail.endswith("}")):
                 raise Undecided("anchor lost (`end` needs a body ending with a statement in %s)" % full)
             pos = it["body_end"] - 1
-        elif where in ("inloop", "endloop"):
+        elif where in ("inloop", "endloop", "afterloop"):
             # at the start of the body of the loop whose header contains the anchor (same pairing rule as %loop)
             cands = [l for l in loops if norm(anchor) in l["header"]]
             if len(cands) <= occ:
@@ -713,7 +713,7 @@ def fn_inserts(u, m, d, it, info, used_fns, probe_fn):
                     raise Undecided("anchor lost (inloop in %s): %r" % (full, anchor))
             else:
                 occ2 = occ
-            pos = cands[occ2]["body_open"] + 1 if where == "inloop" else cands[occ2]["body_close"]
+            pos = cands[occ2]["body_open"] + 1 if where == "inloop" else (cands[occ2]["body_close"] if where == "endloop" else cands[occ2]["body_close"] + 1)
         else:
             a, z = find_anchor(body, anchor, occ, "proof in " + full)
             if where == "afterblock":
